@@ -130,25 +130,30 @@ Step(ev) ==
          LET n == ev.arg.len L == Len(arr.v) can == n >= 0 \/ (arr.has /\ L >= -n) IN
          /\ UNCHANGED <<src, inst, todo, store, nops, memo>> /\ Log(ev)
          /\ ev.obs.ret = IF can THEN "ok" ELSE "refused"       \* repeating more elements than exist is refused
-         /\ arr' = IF can THEN [has |-> TRUE, v |-> arr.v \o (IF n >= 0 THEN ZerosR(n) ELSE SubSeq(arr.v, L + n + 1, L))] ELSE arr
+         /\ arr' = IF can THEN [arr EXCEPT !.has = TRUE, !.v = arr.v \o (IF n >= 0 THEN ZerosR(n) ELSE SubSeq(arr.v, L + n + 1, L))] ELSE arr
          /\ can => ev.obs.at = L
-         /\ NearList(ev.obs.arr, arr'.v)
+         /\ NearList(ev.obs.arr, arr'.v) /\ NearList(ev.obs.sib, arr.sib)
     [] ev.a = "prepare" ->
          LET g == ev.arg I == inst[g.i] k == Take(I, g.len) L == Len(arr.v)
              new == [j \in 1..(g.len * g.ld) |-> IF (j - 1) % g.ld = 0 /\ (j - 1) \div g.ld < k THEN I.seq[I.pos + ((j - 1) \div g.ld) + 1] ELSE ZeroR]
          IN
          /\ UNCHANGED <<src, todo, store, nops, memo>> /\ Log(ev)
          /\ g.len > 0 /\ ev.obs.ret = "ok" /\ ev.obs.at = L /\ ev.obs.n = k /\ ev.obs.how = HowOf("loop", I, g.len)
-         /\ arr' = [has |-> TRUE, v |-> arr.v \o new]
+         /\ arr' = [arr EXCEPT !.has = TRUE, !.v = arr.v \o new]
          /\ inst' = [inst EXCEPT ![g.i] = Moved(I, k)]
-         /\ NearList(ev.obs.arr, arr'.v)
+         /\ NearList(ev.obs.arr, arr'.v) /\ NearList(ev.obs.sib, arr.sib)
     [] ev.a = "vfile" ->
          \* lines of the case are carried by the script step (ev.lines); only filled cells are compared
-         LET p == ev.arg R == ReadRows(Toks(ev.lines, 1), 1, p.rows, p.cols) IN
+         LET p == ev.arg run == VFileRun(Toks(ev.lines, 1), 1, p.rows, p.cols, p.order, p.data) IN
          /\ UNCHANGED <<src, inst, todo, store, arr, nops, memo>> /\ Log(ev)
-         /\ ev.obs.ret = IF Len(R) = p.rows * p.cols THEN "ok" ELSE "short"
-         /\ Len(ev.obs.vals) = p.rows * p.cols
-         /\ p.data = 1 => \A m \in 1..Len(R) : Near(ev.obs.vals[CellOf(m, p.rows, p.cols, p.order)], R[m], MagExp(R[m]) - 50)
+         /\ ev.obs.ret = run.rets
+         /\ Len(ev.obs.vals) = Len(run.cells)
+         /\ \A c \in 1..Len(run.cells) : run.cells[c] # Sentinel => Near(ev.obs.vals[c], run.cells[c], MagExp(run.cells[c]) - 50)
+    [] ev.a = "pshare" ->
+         /\ UNCHANGED <<src, inst, todo, store, nops, memo>> /\ Log(ev)
+         /\ arr.has /\ ev.obs.ret = "ok"
+         /\ arr' = [arr EXCEPT !.sib = arr.v]
+         /\ NearList(ev.obs.arr, arr.v) /\ NearList(ev.obs.sib, arr.v)
     [] ev.a = "rdnew" ->
          /\ UNCHANGED <<src, inst, todo, arr, nops, memo>> /\ Log(ev)
          /\ store' = NewStore(src.drv, src.lim, src.dims)
